@@ -24,6 +24,8 @@ type indexedHeap struct {
 	indices []int
 	// Max index handed out
 	maxidx int
+	// Mapping key to the "index" of its entry: a key is tracked by at most one entry
+	keys map[string]int
 }
 
 func (h indexedHeap) Len() int {
@@ -73,11 +75,16 @@ func (h *indexedHeap) put(key string, exp uint64, bytes uint) int {
 		key: key, exp: exp, idx: idx, bytes: bytes,
 	})
 	heap.Fix(h, h.Len()-1)
+	if h.keys == nil {
+		h.keys = make(map[string]int)
+	}
+	h.keys[key] = idx
 	return idx
 }
 
 func (h *indexedHeap) removeInternal(realIdx int) (string, uint) {
 	x := heap.Remove(h, realIdx).(heapEntry) //nolint:forcetypeassert,errcheck // Forced type assertion required to implement the heap.Interface interface
+	delete(h.keys, x.key)
 	return x.key, x.bytes
 }
 
@@ -99,6 +106,17 @@ func (h *indexedHeap) remove(idx int, key string) (uint, bool) {
 	}
 	_, size := h.removeInternal(realIdx)
 	return size, true
+}
+
+// Remove the entry tracking key, if there is one. The caller need not know the
+// entry's index: an item that comes back from the storage may be gone (expired
+// by the storage itself) or carry the index of a heap it was not stored through.
+func (h *indexedHeap) removeKey(key string) (uint, bool) {
+	idx, ok := h.keys[key]
+	if !ok {
+		return 0, false
+	}
+	return h.remove(idx, key)
 }
 
 // Remove entry with lowest expiration time
